@@ -382,7 +382,7 @@ var historyFacet = harness.Register(&harness.Facet[histCase]{
 	Name:     "index-length-history",
 	Rule:     "rapid: an array of ≤ 4 elements/holes and a history of 1–4 steps from {R[key]=v, delete R[key], key in R, R[key], R.length=v, defineProperty(R,key,{value,writable,configurable}), defineProperty(R,'length',{value?,writable}), push, pop, freeze, seal, preventExtensions}; keys from the index-spelling pool (\"0\" \"01\" \"+1\" \"-0\" \"1.0\" \"1e0\" \" 1\" \"00\" \"007\" \"0x1\" \"4294967294\" \"4294967295\" \"4294967296\" …, and numeric keys -0, 1.5, 2^32-2, 2^32-1, 2^32, 1e21, NaN), length values from the odd pool (fractions, negatives, NaN, 2^32-1, 2^32, numeric strings, booleans, null, undefined, valueOf/toString objects); after every step the value of the expression, the thrown class, the conversion log and the whole array state (own properties with attributes, extensibility) are compared with the lib/m08 model of ES5.1 15.4.5.1/8.12, and the length invariant (length integer in [0,2^32-1], above every own array index) is checked on otto's state alone; non-trivial = some step is not a plain set/get/has/push with a small canonical index; distinct by the whole history",
 	Quick:    7000,
-	Thorough: 120000,
+	Thorough: 50000,
 	Gen:      genHistory,
 	Check:    checkHistory,
 })
